@@ -14,7 +14,7 @@
       the fix. *)
 From Coq Require Import List Bool Arith.
 From TG.Model Require Import Sched SchedTrace.
-From TG.Proofs Require Import SchedProofs SchedTraceProofs.
+From TG.Proofs Require Import SchedProofs SchedWaitFree SchedTraceProofs.
 Import ListNotations.
 
 (** Deadlock freedom: in every reachable state that is not final some thread can step.  For every policy,
@@ -54,6 +54,19 @@ Check C08_live : forall (P : Type) (pol : policy) (items : list (item P)) (s : s
   (exists tr s', run pol tr s = Some s' /\ final s') /\
   (final s -> length (ws s) = length items /\ forall w, In w (ws s) -> rem w = []).
 Print Assumptions C08_live.
+
+(** Tasks never wait for the main loop nor for each other: in every reachable state of the real server's
+    protocol every unfinished task can step (its vfs.read() and mutex acquisitions are never blocked), so a
+    request is answered as soon as its own task has been scheduled [length (skeleton kind)] times - weak
+    fairness towards that one task is enough. *)
+Theorem C08_tasks_never_blocked : forall (P : Type) (pol : policy) (items : list (item P)) (s : st P) (i : nat) (w : worker P),
+  reach pol (init (script_of items)) s -> nth_error (ws s) i = Some w -> rem w <> [] ->
+  exists s', exec pol (LWorker i) s = Some s'.
+Proof. exact @tasks_never_blocked. Qed.
+Check C08_tasks_never_blocked : forall (P : Type) (pol : policy) (items : list (item P)) (s : st P) (i : nat) (w : worker P),
+  reach pol (init (script_of items)) s -> nth_error (ws s) i = Some w -> rem w <> [] ->
+  exists s', exec pol (LWorker i) s = Some s'.
+Print Assumptions C08_tasks_never_blocked.
 
 (** Non-vacuity: a reachable, non-final state of the real protocol with a live request task and a live
     diagnostics task (didOpen; definition request; didChange). *)
